@@ -82,6 +82,11 @@ def r1_exactly_one(ctx):
                         keys = set()
                     if keys == set(names) and norm(ge.elt) == f"{ge.generators[0].target.id} in {p}":
                         found = gd
+                elif isinstance(cnt, ast.Call) and call_name(cnt) == "sum" and cnt.args and isinstance(cnt.args[0], (ast.Tuple, ast.List)):
+                    # canonical form of a count over a literal table: sum(('a' in dct, 'b' in dct, ..))
+                    elts = cnt.args[0].elts
+                    if all(isinstance(x, ast.Compare) and len(x.ops) == 1 and isinstance(x.ops[0], ast.In) and isinstance(x.left, ast.Constant) and dotted(x.comparators[0]) == p for x in elts) and {x.left.value for x in elts} == set(names) and len(elts) == len(names):
+                        found = gd
         ok = found is not None and g.node_of(found) in g.dominators("n").get(g.exit_return, set())
         ctx.check(ok, bc.qual + f"#count-{label}", f"raises unless exactly one of {sorted(names)} is present, on every path" if ok else f"no dominating exactly-one check over the keys {sorted(names)}", where=bc, node=found.test if found else bc.node)
         # ladder
@@ -355,8 +360,20 @@ def r5_builders_not_crosswired(ctx):
             star = [k for k in v.keywords if k.arg is None]
             if (len(star) == 1 and dotted(star[0].value) == p and not v.args and len(v.keywords) == 1) or (isinstance(v.func, ast.Attribute) and v.func.attr == "from_dict" and len(v.args) == 1 and dotted(v.args[0]) == p):
                 continue  # whole mapping forwarded
-            # hand-picking
+            # hand-picking (a keyword mapping built key by key, `kw = {...}; kw["k"] = ..; Cls(**kw)`, is read as its display)
+            from sa.astutil import dict_display
+
+            picked = []
             for k in v.keywords:
+                if k.arg is None:
+                    dd = dict_display(f, k.value.id) if isinstance(k.value, ast.Name) and k.value.id != p else None
+                    if dd is not None and all(kk is not None for kk in dd.keys):
+                        picked += [ast.keyword(arg=kk.value, value=vv) for kk, vv in zip(dd.keys, dd.values)]
+                    else:
+                        picked.append(k)
+                else:
+                    picked.append(k)
+            for k in picked:
                 if k.arg is None:
                     ctx.fail(c + "#kw", f"mixes ** forwarding with hand-picked keywords: {norm(v)[:80]}", where=f, node=r)
                     ok_all = False
